@@ -204,7 +204,10 @@ def run_property(pid, tier, seed, mod):
         if not proof_ok:
             why.append("proof obligation broken")
         if not model_ok:
-            why.append("model build/run failed: " + b["model"][1][-1500:])
+            if b["model"][0] != 0:
+                why.append("model build failed: " + b["model"][1][-1500:])
+            else:
+                why.append("a stream could not be executed (harness or model run failed, killed or timed out): see below")
         rp = write_replay(pid, tier, "tie-or-proof", {"broken": why + broken, "theorems_file": "coq/theories/Props/%s.v" % pid,
                                                        "mismatches": [t[1] for t in ties[:10]],
                                                        "streams": [t[0] for t in ties[:10]]})
